@@ -1246,8 +1246,19 @@ impl CommonElementAttributes {
         for mark in marks {
             mark.to_proc_gen_with_method(w, "M", scopes, bmc)?;
         }
-        for ev in event_bindings {
-            ev.to_proc_gen(w, scopes, bmc)?;
+        for (index, ev) in event_bindings.iter().enumerate() {
+            // (dynamic bindings of one event with the same options are told apart by their ordinal)
+            let ordinal = event_bindings[..index]
+                .iter()
+                .filter(|x| {
+                    matches!(x.value, Some(Value::Dynamic { .. }))
+                        && x.name.name == ev.name.name
+                        && x.is_catch == ev.is_catch
+                        && x.is_mut == ev.is_mut
+                        && x.is_capture == ev.is_capture
+                })
+                .count();
+            ev.to_proc_gen(w, scopes, bmc, ordinal)?;
         }
         if let Some((_, value)) = id.as_ref() {
             write_attribute_value(w, "R.i", value, scopes, bmc)?;
@@ -1470,6 +1481,7 @@ impl EventBinding {
         w: &mut JsFunctionScopeWriter<W>,
         scopes: &Vec<ScopeVar>,
         bmc: &BindingMapCollector,
+        ordinal: usize,
     ) -> Result<(), TmplError> {
         match &self.value {
             None => {
@@ -1522,6 +1534,11 @@ impl EventBinding {
                     if p.has_script_lvalue_path(scopes) {
                         write!(w, ",")?;
                         p.lvalue_path(w, scopes, Some(false))?;
+                    } else if ordinal > 0 {
+                        write!(w, ",undefined")?;
+                    }
+                    if ordinal > 0 {
+                        write!(w, ",{}", ordinal)?;
                     }
                     write!(w, ")")?;
                     Ok(())
@@ -1543,6 +1560,11 @@ impl EventBinding {
                                 if p.has_script_lvalue_path(scopes) {
                                     write!(w, ",")?;
                                     p.lvalue_path(w, scopes, Some(false))?;
+                                } else if ordinal > 0 {
+                                    write!(w, ",undefined")?;
+                                }
+                                if ordinal > 0 {
+                                    write!(w, ",{}", ordinal)?;
                                 }
                                 write!(w, ")")?;
                                 Ok(())
